@@ -178,6 +178,7 @@ type Scenario struct {
 	ReadPauseTo   int  // ms at which it reads again (0 with ReadPauseFrom > 0 = never again): back-pressure on the client's writer
 	ToPanelCap    int  // capacity of the msgsToPanel channel (0 = unbuffered)
 	SharedBacking bool // all lists of one submitter are sub-slices of ONE array with spare capacity behind each of them
+	FloodKB       int  // an extra submitter hands in 32 KiB graphics states (not listed in the case) from SubStart on until that many KiB are in or the context ends
 }
 
 // knobs travel in the ID so that a replayed case line reproduces them: name~pf700~pt0~cap16~sh
@@ -192,10 +193,13 @@ func (sc *Scenario) knobSuffix() string {
 	if sc.SharedBacking {
 		s += "-SHARED"
 	}
+	if sc.FloodKB > 0 {
+		s += fmt.Sprintf("-FLOOD%d", sc.FloodKB)
+	}
 	return s
 }
 
-var knobRe = regexp.MustCompile(`-(PF|PT|CAP)(\d+)|-(SHARED)`)
+var knobRe = regexp.MustCompile(`-(PF|PT|CAP|FLOOD)(\d+)|-(SHARED)`)
 
 func (sc *Scenario) parseKnobs() {
 	for _, m := range knobRe.FindAllStringSubmatch(sc.ID, -1) {
@@ -207,6 +211,8 @@ func (sc *Scenario) parseKnobs() {
 			sc.ReadPauseTo = v
 		case m[1] == "CAP":
 			sc.ToPanelCap = v
+		case m[1] == "FLOOD":
+			sc.FloodKB = v
 		case m[3] == "SHARED":
 			sc.SharedBacking = true
 		}
@@ -412,6 +418,21 @@ func runScenario(sc *Scenario) []Sx {
 				}(sub)
 			}
 		}
+		if sc.FloodKB > 0 { // outbound back-pressure: large states handed in continuously, not part of the case
+			subWG.Add(1)
+			go func() {
+				defer subWG.Done()
+				big := &rwp.InboundMessage{States: []*rwp.HWCState{{HWCIDs: []uint32{4242}, HWCGfx: &rwp.HWCGfx{W: 512, H: 512, ImageData: make([]byte, 32768)}}}}
+				time.Sleep(time.Duration(sc.SubStart) * time.Millisecond)
+				for kb := 0; kb < sc.FloodKB; kb += 32 {
+					select {
+					case toPanel <- []*rwp.InboundMessage{big}:
+					case <-ctx.Done():
+						return
+					}
+				}
+			}()
+		}
 		nConnect := 0
 		onconnect := func(e string, bin bool, c net.Conn) {
 			lg.add(func(t int) Sx { return L(Sym("con"), t, []byte(e), bin) })
@@ -538,8 +559,13 @@ func servePeer(lg *obsLog, pr *peerRec, cs *ConnScript, base time.Time, pauseFro
 			if pauseFrom > 0 { // the panel does not read during [pauseFrom, pauseTo) (pauseTo 0: never again)
 				now := int(time.Since(base) / time.Millisecond)
 				if now >= pauseFrom && (pauseTo == 0 || now < pauseTo) {
-					if pauseTo == 0 {
-						select {} // the socket is closed by the harness at the end of the scenario
+					if pauseTo == 0 { // never reads again: how the stream ends cannot be observed on this socket (kind 3)
+						lg.mu.Lock()
+						pr.endKind = 3
+						pr.endT = lg.ms()
+						lg.mu.Unlock()
+						close(pr.done)
+						return
 					}
 					time.Sleep(time.Until(base.Add(time.Duration(pauseTo) * time.Millisecond)))
 				} else if now < pauseFrom {
